@@ -38,12 +38,13 @@ RULE = ("kinds: 1d (60%): two node sets on a common line, embedded in 3-D along 
         "tri2d (20%): two pp.StructuredTriangleGrid of the same rectangle (1-5 x 1-5 squares each, equal resolutions and "
         "unperturbed grids included, interior nodes moved by up to 0.2 h), optionally rotated into a rational plane of 3-D: "
         "triangulations + match_2d. surf (10%): surface_tessellations on two or three rectangle partitions (tensor node sets) or on the "
-        "triangle sets, with and without return_simplexes. mortar (10%): two Cartesian 2-D grids with one horizontal fracture, "
+        "triangle sets or on one or two random convex polygons per set (pairwise overlaps only), with and without return_simplexes; every piece "
+        "must lie in the cells it is mapped to and the pieces of a pair of cells must add up to the exact overlap. mortar (10%): two Cartesian 2-D grids with one horizontal fracture, "
         "different resolutions and independent monotone piecewise-linear x-maps: match_grids_along_1d_mortar. "
         "non-trivial = both tessellations have >= 2 cells and are not identical; distinct = distinct cases")
 TRUSTED = [
     "modelled, not verified: segments_3d's direction / collinearity tests (tolerance 1e-8) are taken as 'the two cells are collinear' "
-    "(true by construction of the inputs); only its collinear branch (max/min test, argsort of the four end points, middle two) is modelled, "
+    "(true by construction of the inputs); only its collinear branch (max/min test, argsort of the four end points, middle two, 'end to end' test |difference| < 1e-8 -> one point) is modelled, "
     "in the arc-length parameter of the coordinate start[mask][0] the code sorts by",
     "modelled, not verified: Grid.cell_nodes / compute_geometry (cell_volumes = distance of the two nodes), scipy coo->csr summation of duplicates",
     "2-D (shapely: triangulations, surface_tessellations, match_2d) and match_grids_along_1d_mortar are NOT modelled in Lean: oracle only "
@@ -52,8 +53,11 @@ TRUSTED = [
 ]
 EXPLANATION = ("FULL in 1-D: model = double loop of line_tessellation over the collinear branch of segments_3d + the three scaling branches of "
                "match_1d + coo->dense; theorems: non-negativity (any cell lists), entry = length of the interval intersection, row/column sums = cell "
-               "measures, averaged rows / integrated columns sum to one, for strictly increasing node lists with common end points. "
-               "CORE in 2-D and for the mortar matching: oracle with the same statement on the real code.")
+               "measures, averaged rows / integrated columns sum to one, for strictly increasing node lists with common end points whose cells are at least "
+               "the tolerance of segments_3d long and whose nodes coincide or are at least that tolerance apart (decidable hypotheses gapInc / sepNodes; a "
+               "counterexample without them is in Props.lean: shorter overlaps are reported with weight 0). "
+               "CORE in 2-D and for the mortar matching: oracle with the same statement on the real code; three open findings there "
+               "(known_findings.d/C33.json, fixes/C33-*.diff).")
 ASSUMPTIONS = [
     "1-D cells are longer than the tolerance 1e-8 of segments_3d in every non-constant coordinate and coordinates are moderate (<= 2^8), "
     "so that the float collinearity tests of segments_3d succeed for collinear inputs",
@@ -99,14 +103,26 @@ def _gen_1d(rng, tier):
         length = rng.choice([F(1), F(2), F(7, 3), F(5)])
     hi = lo + length
     nmax = 12 if tier == "thorough" else 8
-    na = rng.choice([1, 1, 2, 3, rng.randint(1, nmax)])
-    nb = rng.choice([1, 2, 3, rng.randint(1, nmax), rng.randint(1, nmax)])
+    na = rng.choice([1, 2, 3, rng.randint(2, nmax), rng.randint(1, nmax)])
+    nb = rng.choice([1, 2, 4, rng.randint(2, nmax), rng.randint(1, nmax), rng.randint(1, nmax)])
     ta = _node_set(rng, lo, hi, na, [], dyadic)
     if rng.random() < 0.08:
         tb = list(ta)
     else:
         tb = _node_set(rng, lo, hi, nb, ta[1:-1], dyadic)
     loose = rng.random() < 0.12
+    near = False
+    if dyadic and not loose and rng.random() < 0.15 and len(ta) > 2:
+        # nodes of b next to nodes of a: 2^-30 (closer than the tolerance 1e-8 of segments_3d in every coordinate) or 2^-25 (farther)
+        near = True
+        tb = sorted(set([lo, hi] + [x + rng.choice([1, -1]) * rng.choice([F(1, 2 ** 30), F(1, 2 ** 25)]) for x in rng.sample(ta[1:-1], rng.randint(1, len(ta) - 2))]
+                        + [x for x in tb[1:-1] if rng.random() < 0.5]))
+        # cells of b must stay longer than the tolerance (ASSUMPTIONS): drop a node that is next to the previous one
+        kept = [tb[0]]
+        for x in tb[1:-1]:
+            if x - kept[-1] >= F(1, 2 ** 12):
+                kept.append(x)
+        tb = kept + [tb[-1]]
 
     def grid(t):
         n = len(t)
@@ -141,7 +157,7 @@ def _gen_1d(rng, tier):
                 cells.append([2 * i, 2 * i + 1])
             gb = {"nodes": None, "cells": cells}
         gb["nodes"] = [frac(x) for x in tb2]
-    case = {"kind": "1d", "dir": d, "len": L, "origin": [frac(x) for x in origin], "a": ga, "b": gb, "dyadic": dyadic, "loose": loose}
+    case = {"kind": "1d", "dir": d, "len": L, "origin": [frac(x) for x in origin], "a": ga, "b": gb, "dyadic": dyadic, "loose": loose, "near": near}
     # tolerance of the unscaled matrix: keep it away from every overlap length (no float/rational tie)
     ws = [w for row in _overlaps_1d(case) for w in row]
     for tol in rng.sample([F(1, 10000), F(1, 8), F(1, 2), F(1), F(3)], 5):
@@ -149,6 +165,9 @@ def _gen_1d(rng, tier):
             break
     else:
         tol = F(1, 10 ** 7)
+    pos = [w for w in ws if w > 0]
+    if dyadic and not near and pos and rng.random() < 0.35:
+        tol = rng.choice(pos)  # exact tie `weight == tol` (binary64 exact): strict comparison in match_1d
     case["tol"] = frac(tol)
     return case
 
@@ -179,6 +198,30 @@ def _gen_surf(rng, tier):
             ys = _node_set(rng, F(0), F(Ly), rng.randint(1, 3), [F(Ly, 3)], rng.random() < 0.7)
             sets.append({"xs": [frac(x) for x in xs], "ys": [frac(y) for y in ys]})
         return {"kind": "surf", "shape": "rect", "sets": sets, "simplex": rng.random() < 0.4}
+    if rng.random() < 0.25:
+        # a few convex polygons per set (not tessellations of one domain; as in porepy's own tests): pairwise overlaps only
+        def hull(pts):
+            pts = sorted(set(pts))
+            def half(ps):
+                h = []
+                for q in ps:
+                    while len(h) >= 2 and (h[-1][0] - h[-2][0]) * (q[1] - h[-2][1]) - (h[-1][1] - h[-2][1]) * (q[0] - h[-2][0]) <= 0:
+                        h.pop()
+                    h.append(q)
+                return h
+            lo, up = half(pts), half(pts[::-1])
+            return lo[:-1] + up[:-1]
+        sets = []
+        for _ in range(2):
+            polys = []
+            for _ in range(rng.randint(1, 2)):
+                while True:
+                    h = hull([(F(rng.randint(0, 16), 8), F(rng.randint(0, 16), 8)) for _ in range(rng.randint(3, 5))])
+                    if len(h) >= 3:
+                        break
+                polys.append([[frac(x) for x, _ in h], [frac(y) for _, y in h]])
+            sets.append(polys)
+        return {"kind": "surf", "shape": "polys", "sets": sets, "simplex": rng.random() < 0.5}
     c = _gen_tri(rng, "quick")
     c.update(kind="surf", shape="tri", simplex=rng.random() < 0.4, rot=0)
     return c
@@ -217,6 +260,12 @@ def gen_case(rng, tier):
 # ------------------------------------------------------------------------------------------------ 1-D helpers
 def _sigma(case):
     return 1 if [c for c in case["dir"] if c != 0][0] > 0 else -1
+
+
+def _ptol(case):
+    """tolerance 1e-8 of segments_3d (compared with a difference of the first non-constant coordinate) in arc-length units"""
+    dk = abs([c for c in case["dir"] if c != 0][0])
+    return F(1e-8) * case["len"] / dk
 
 
 def _cells_param(case, which):
@@ -404,7 +453,7 @@ def model_ops(case):
     if case["kind"] != "1d":
         return []
     ca, cb = _cells_param(case, "a"), _cells_param(case, "b")
-    return [{"op": "match1d", "c1": [[frac(s), frac(e)] for s, e in ca], "c2": [[frac(s), frac(e)] for s, e in cb], "tol": case["tol"]}]
+    return [{"op": "match1d", "c1": [[frac(s), frac(e)] for s, e in ca], "c2": [[frac(s), frac(e)] for s, e in cb], "tol": case["tol"], "ptol": frac(_ptol(case))}]
 
 
 def model_decode(outs, case):
@@ -429,7 +478,7 @@ def compare(impl, model, case):
         return f"reported (i, j) pairs differ: impl {[t[:2] for t in ti]} vs model {[t[:2] for t in tm]}"
     for x, y in zip(ti, tm):
         wi, wm = F(x[2]), F(y[2])
-        if case["dyadic"]:
+        if case["dyadic"] and not case.get("near"):
             if wi != wm:
                 return f"weight of pair {x[:2]}: impl {wi} vs model {wm} (dyadic input: exact comparison)"
         elif abs(wi - wm) > 1e-12 * max(1, abs(wm)):
@@ -506,7 +555,9 @@ def _oracle_1d(case):
     W = _dense(T, m, n)
     R = np.array([[float(x) for x in row] for row in ref]).reshape(m, n)
     scale = max(1.0, float(abs(R).max()) if R.size else 1.0)
-    if np.abs(W - R).max() > 1e-12 * scale * 16:
+    # overlaps shorter than the tolerance of segments_3d are reported with weight 0 (one point): slack of one tolerance per pair
+    slack = float(_ptol(case)) * (m + n) if case.get("near") else 0.0
+    if np.abs(W - R).max() > 1e-12 * scale * 16 + slack:
         i, j = np.unravel_index(np.abs(W - R).argmax(), W.shape)
         return _fail(f"1d: overlap of cells ({i},{j}) reported as {W[i, j]!r}, the intervals share {R[i, j]!r}", "1d-overlap-value")
     if case["loose"]:
@@ -514,16 +565,16 @@ def _oracle_1d(case):
     la, lb = _cells_param(case, "a"), _cells_param(case, "b")
     vol_a = np.array([float(abs(e - s)) for s, e in la])
     vol_b = np.array([float(abs(e - s)) for s, e in lb])
-    f = _check_sums("1d", W, vol_a, vol_b, scale, tol=1e-11)
+    f = _check_sums("1d", W, vol_a, vol_b, scale, tol=1e-11 + slack / scale)
     if f:
         return f
-    f = _check_stochastic("1d", r["avg"], r["int"], tol=1e-11)
+    f = _check_stochastic("1d", r["avg"], r["int"], tol=1e-11 + slack / float(min(vol_a.min(), vol_b.min())))
     if f:
         return f
     A, I, Nn = np.array(r["avg"]), np.array(r["int"]), np.array(r["none"])
-    if np.abs(A * vol_a.reshape(-1, 1) - R).max() > 1e-10 * scale:
+    if np.abs(A * vol_a.reshape(-1, 1) - R).max() > 1e-10 * scale + slack:
         return _fail("1d: averaged matrix is not overlap / measure of the new cell", "1d-averaged-value")
-    if np.abs(I * vol_b.reshape(1, -1) - R).max() > 1e-10 * scale:
+    if np.abs(I * vol_b.reshape(1, -1) - R).max() > 1e-10 * scale + slack:
         return _fail("1d: integrated matrix is not overlap / measure of the old cell", "1d-integrated-value")
     tol = float(F(case["tol"]))
     if not np.array_equal(Nn != 0, R > tol) or not np.all((Nn == 0) | (Nn == 1)):
@@ -627,6 +678,8 @@ def _surf_sets(case):
             sets.append([np.array([[xs[i], xs[i + 1], xs[i + 1], xs[i]], [ys[j], ys[j], ys[j + 1], ys[j + 1]]])
                          for j in range(len(ys) - 1) for i in range(len(xs) - 1)])
         return sets
+    if case["shape"] == "polys":
+        return [[np.array([[float(F(v)) for v in p[0]], [float(F(v)) for v in p[1]]]) for p in st] for st in case["sets"]]
     sets = []
     for k in range(2):
         g, flat = _tri_grid(case, k)
@@ -636,44 +689,61 @@ def _surf_sets(case):
 
 
 def _oracle_surf(case):
+    """All cells of all sets are convex, so every piece is convex and the pieces of a pair (cell of set 0, cell of set 1)
+    must add up to the exact overlap of the two cells."""
     import porepy as pp
     sets = _surf_sets(case)
-    areas = [np.array([float(_poly_area(_fpoly(p))) for p in s]) for s in sets]
-    total = float(areas[0].sum())
+    fsets = [[_fpoly(p) for p in st] for st in sets]
+    areas = [np.array([float(_poly_area(p)) for p in st]) for st in fsets]
+    total = max(float(a.sum()) for a in areas)
+    cover = case["shape"] in ("rect", "tri")  # the sets tessellate one and the same rectangle
     try:
         isect, maps = pp.intersections.surface_tessellations(sets, return_simplexes=bool(case["simplex"]))
     except ValueError as e:
         if "zero-size array" in str(e):
-            return _fail("surface_tessellations raised ValueError (zero-size array to reduction operation) on two tessellations of one polygon: "
+            return _fail("surface_tessellations raised ValueError (zero-size array to reduction operation): "
                          "a pair of disjoint cells with overlapping bounding boxes gives an empty shapely Polygon", "surf-empty-polygon-ValueError")
         return _fail(f"surface_tessellations raised ValueError: {e}", "surf-raises-ValueError-other")
+    except NotImplementedError as e:
+        if "Non-convex" in str(e):
+            return _fail("surface_tessellations(return_simplexes=True) raised NotImplementedError('Non-convex polygons not covered') although all "
+                         "cells, hence all intersection polygons, are convex", "surf-simplex-convex-piece-rejected")
+        return _fail(f"surface_tessellations raised NotImplementedError: {e}", "surf-raises-NotImplementedError-other")
     except Exception as e:
         return _fail(f"surface_tessellations raised {type(e).__name__}: {e}", f"surf-raises-{type(e).__name__}")
-    ar = np.array([float(_poly_area(_fpoly(p))) for p in isect])
+    fis = [_fpoly(p) for p in isect]
+    ar = np.array([float(_poly_area(p)) for p in fis])
     if len(maps) != len(sets):
         return _fail("surface_tessellations: number of mappings differs from number of sets", "surf-mappings-count")
-    if ar.size and ar.min() < 0:
-        return _fail("surface_tessellations: negative area", "surf-negative")
+    Ms = []
     for k, M in enumerate(maps):
         M = M.toarray()
         if M.shape != (len(isect), len(sets[k])):
-            return _fail(f"surface_tessellations: mapping {k} has shape {M.shape}", "surf-mapping-shape")
+            return _fail(f"surface_tessellations: mapping {k} has shape {M.shape}, expected {(len(isect), len(sets[k]))}", "surf-mapping-shape")
         if not np.all((M == 0) | (M == 1)) or not np.all(M.sum(axis=1) == 1):
             return _fail(f"surface_tessellations: mapping {k} does not assign exactly one cell of set {k} to every intersection polygon", "surf-mapping-not-function")
-        s = M.T @ ar
-        if np.abs(s - areas[k]).max() > 1e-9 * total:
-            c = int(np.abs(s - areas[k]).argmax())
-            return _fail(f"surface_tessellations: the pieces of cell {c} of set {k} have total area {s[c]!r}, the cell has {areas[k][c]!r}", "surf-cell-sum")
-    # every piece lies in the cells it is mapped to: area(piece ∩ cell) = area(piece)
-    for q, p in enumerate(isect):
-        fp = _fpoly(p)
-        if case["shape"] == "tri" or len(p[0]) <= 4:
-            for k, M in enumerate(maps):
-                c = int(M.toarray()[q].argmax())
-                inter = _clip(fp, _fpoly(sets[k][c]))
-                a = float(_poly_area(inter)) if len(inter) >= 3 else 0.0
-                if abs(a - ar[q]) > 1e-9 * total:
-                    return _fail(f"surface_tessellations: piece {q} is mapped to cell {c} of set {k} but only {a!r} of its area {ar[q]!r} lies in it", "surf-piece-outside-cell")
+        Ms.append(M)
+    if cover:
+        for k, M in enumerate(Ms):
+            sm = M.T @ ar
+            if np.abs(sm - areas[k]).max() > 1e-9 * total:
+                c = int(np.abs(sm - areas[k]).argmax())
+                return _fail(f"surface_tessellations: the pieces of cell {c} of set {k} have total area {sm[c]!r}, the cell has {areas[k][c]!r}", "surf-cell-sum")
+    if len(sets) == 2:
+        R = _exact_overlap_matrix(fsets[0], fsets[1])
+        P = Ms[0].T @ (Ms[1] * ar.reshape(-1, 1)) if len(isect) else np.zeros_like(R)
+        if np.abs(P - R).max() > 1e-9 * total:
+            i, j = (int(v) for v in np.unravel_index(np.abs(P - R).argmax(), R.shape))
+            return _fail(f"surface_tessellations: the pieces mapped to cell {i} of set 0 and cell {j} of set 1 have total area {P[i, j]!r}, "
+                         f"the two cells overlap in {R[i, j]!r}", "surf-overlap-value")
+    # every piece lies in the cells it is mapped to: area(piece ∩ cell) = area(piece)   (pieces are convex)
+    for q, fp in enumerate(fis):
+        for k, M in enumerate(Ms):
+            c = int(M[q].argmax())
+            inter = _clip(fp, fsets[k][c])
+            a = float(_poly_area(inter)) if len(inter) >= 3 else 0.0
+            if abs(a - ar[q]) > 1e-9 * total:
+                return _fail(f"surface_tessellations: piece {q} is mapped to cell {c} of set {k} but only {a!r} of its area {ar[q]!r} lies in it", "surf-piece-outside-cell")
     return None
 
 
@@ -822,6 +892,8 @@ def stats(cases, impl_outs):
         "1d_single_cell_side": sum(1 for c in one if len(c["a"]["cells"]) == 1 or len(c["b"]["cells"]) == 1),
         "1d_shared_interior_node": sum(1 for c in one if len(set(c["a"]["nodes"]) & set(c["b"]["nodes"])) > 2),
         "1d_with_zero_weight_touching_pairs_reported": touching,
+        "1d_near_coincident_nodes_around_segments3d_tolerance": sum(1 for c in one if c.get("near")),
+        "1d_tol_equal_to_an_overlap": sum(1 for c in one if any(w == F(c["tol"]) and w > 0 for row in _overlaps_1d(c) for w in row)),
         "1d_negative_direction": sum(1 for c in one if _sigma(c) < 0),
         "1d_max_cells": max([max(len(c["a"]["cells"]), len(c["b"]["cells"])) for c in one] or [0]),
         "2d_oracle_only": sum(v for k, v in kinds.items() if k != "1d"),
